@@ -108,13 +108,10 @@ def case_roundtrip(prog, params):
     target = SymStr.fresh('u', P['target_cap'], cons, alphabet=nonspace_printable, **({'exact_len': L['t']} if 't' in L else {'minlen': 1}))
     hs = []; syms = {'u': target}
     for i in range(params['nh']):
-        # names: printable, no ':' , no space (a name containing ": " is not a well-formed header) ; values: printable, may contain ':' '=' and ": ",
-        # no leading/trailing blanks (the statement's round trip is about well-formed requests)
+        # names: printable, no ':' , no space (a name containing ": " is not a well-formed header) ; values: any printable text incl. blanks at either
+        # end, ':' '=' and ": "
         n = SymStr.fresh('n%d' % i, P['hname_cap'], cons, alphabet=lambda b: z3.And(z3.UGE(b, 0x21), z3.ULE(b, 0x7e), b != 0x3a), **({'exact_len': L['n']} if 'n' in L else {'minlen': 1}))
         v = SymStr.fresh('v%d' % i, P['hval_cap'], cons, alphabet=printable, **({'exact_len': L['v']} if 'v' in L else {'minlen': 1}))
-        fv = v.flat()
-        cons.append(fv.bs[0] != 0x20)
-        cons.append(z3.Not(zb(v.ends_with(b' '))))
         hs.append(header(n, v)); syms['n%d' % i] = n; syms['v%d' % i] = v
     body = SymStr.fresh('b', P['body_cap'], cons, **({'exact_len': L['b']} if 'b' in L else {})); syms['b'] = body
     req = request(method, target, hs, body=body, version=version)
